@@ -209,21 +209,37 @@ theorem units_be16 (us : List Nat) (h : ∀ u ∈ us, u < 65536) : units 1 (be16
     rw [units]
     simp only [Nat.one_ne_zero, if_false, ht, unit_join u hu]
 
-/-- no unit LF directly after a unit CR, `c0` being the unit before the list -/
-def noCRLF16 : Nat → List Nat → Bool
-  | _, [] => true
-  | c0, c :: t => !(c0 == 13 && c == 10) && noCRLF16 c t
+/-- CR LF → LF on a sequence of units, looking ahead (the code looks back: it pops the CR when the LF arrives) -/
+def foldU : List Nat → List Nat
+  | [] => []
+  | [a] => [a]
+  | a :: b :: t => if a = 13 ∧ b = 10 then foldU (b :: t) else a :: foldU (b :: t)
 
-theorem fold16_id (us : List Nat) (c0 : Nat) (ra : List Nat) (h : noCRLF16 c0 us = true) :
-    fold16 us c0 ra = ra.reverse ++ us := by
+theorem foldU_cons_ne (x : Nat) (l : List Nat) (h : x ≠ 13) : foldU (x :: l) = x :: foldU l := by
+  cases l with
+  | nil => simp [foldU]
+  | cons y r => simp [foldU, h]
+
+/-- the pop-on-LF loop of `text()` is the look-ahead folding, whatever was stored before -/
+theorem fold16_eq (us : List Nat) (c0 : Nat) (ra : List Nat) :
+    fold16 us c0 ra = (if c0 = 13 ∧ us.head? = some 10 then ra.tail else ra).reverse ++ foldU us := by
   induction us generalizing c0 ra with
-  | nil => simp [fold16]
+  | nil => simp [fold16, foldU]
   | cons c t ih =>
-    simp only [noCRLF16, Bool.and_eq_true, Bool.not_eq_true', Bool.and_eq_false_iff, beq_eq_false_iff_ne] at h
-    have hc : ¬ (c = 10 ∧ c0 = 13) := by
-      intro ⟨a, b⟩; rcases h.1 with h1 | h1 <;> simp_all
-    rw [fold16, if_neg hc, ih c _ h.2]
-    simp
+    rw [fold16, ih]
+    simp only [List.head?_cons, Option.some.injEq, List.tail_cons]
+    have hcond : (c = 10 ∧ c0 = 13) ↔ (c0 = 13 ∧ c = 10) := And.comm
+    cases t with
+    | nil =>
+      simp only [List.head?_nil, reduceCtorEq, and_false, if_false, List.reverse_cons, foldU, List.append_nil, hcond]
+    | cons b r =>
+      simp only [List.head?_cons, Option.some.injEq, foldU, hcond]
+      by_cases h1 : c = 13 ∧ b = 10
+      · simp [h1]
+      · simp [h1]
+
+theorem fold16_start (us : List Nat) : fold16 us 0 [] = foldU us := by
+  rw [fold16_eq]; simp
 
 /-! ## closed forms of one `readLine` -/
 
@@ -306,9 +322,9 @@ theorem char_eq_of_toNat {c : Char} {n : Nat} (h : c.toNat = n) (hn : n < 0xD800
   simp [UInt32.toNat_ofNatLT]
 
 
-theorem text_utf16le_aux (us : List Nat) (hlt : ∀ u ∈ us, u < 65536) (hcr : noCRLF16 0 us = true)
+theorem text_utf16le_aux (us : List Nat) (hlt : ∀ u ∈ us, u < 65536)
     (hlen : 2 + (le16 us).length < 2147483648) :
-    text ([0xFF, 0xFE] ++ le16 us) = wideToString us := by
+    text ([0xFF, 0xFE] ++ le16 us) = wideToString (foldU us) := by
   unfold text
   have hl : ([0xFF, 0xFE] ++ le16 us : Bytes).length < 2147483648 := by simp only [List.length_append, List.length_cons, List.length_nil]; omega
   simp only [size_mask _ hl]
@@ -316,11 +332,11 @@ theorem text_utf16le_aux (us : List Nat) (hlt : ∀ u ∈ us, u < 65536) (hcr : 
   have e1 : (0xFF : UInt8) = bom1.1 ∧ (0xFE : UInt8) = bom1.2 := by decide
   have hlo : lowIndex1 = 0 := by decide
   simp only [List.cons_append, List.nil_append] at *
-  simp only [if_pos h2, if_pos e1, hlo, units_le16 us hlt, fold16_id us 0 [] hcr, List.reverse_nil, List.nil_append]
+  simp only [if_pos h2, if_pos e1, hlo, units_le16 us hlt, fold16_start]
 
-theorem text_utf16be_aux (us : List Nat) (hlt : ∀ u ∈ us, u < 65536) (hcr : noCRLF16 0 us = true)
+theorem text_utf16be_aux (us : List Nat) (hlt : ∀ u ∈ us, u < 65536)
     (hlen : 2 + (be16 us).length < 2147483648) :
-    text ([0xFE, 0xFF] ++ be16 us) = wideToString us := by
+    text ([0xFE, 0xFF] ++ be16 us) = wideToString (foldU us) := by
   unfold text
   have hl : ([0xFE, 0xFF] ++ be16 us : Bytes).length < 2147483648 := by simp only [List.length_append, List.length_cons, List.length_nil]; omega
   simp only [size_mask _ hl]
@@ -329,7 +345,7 @@ theorem text_utf16be_aux (us : List Nat) (hlt : ∀ u ∈ us, u < 65536) (hcr : 
   have e1 : (0xFE : UInt8) = bom2.1 ∧ (0xFF : UInt8) = bom2.2 := by decide
   have hlo : lowIndex2 = 1 := by decide
   simp only [List.cons_append, List.nil_append] at *
-  simp only [if_pos h2, if_neg e0, if_pos e1, hlo, units_be16 us hlt, fold16_id us 0 [] hcr, List.reverse_nil, List.nil_append]
+  simp only [if_pos h2, if_neg e0, if_pos e1, hlo, units_be16 us hlt, fold16_start]
 
 
 /-! ## writers -/
